@@ -1,0 +1,9 @@
+//go:build !verif
+
+package service
+
+func vtrace(ev string, a, b int64) {}
+
+func vgate(label string) {}
+
+func vbool(b bool) int64 { return 0 }
